@@ -11,7 +11,7 @@ What is modelled (the code's algorithm, as it is):
                         (`Except Err (List Score)`, `none` = NaN), obtained for the tuner's own `cv` and
                         the `y` given to `fit`; the call trace records which (cv, y, params) each call got.
   * `_fit_and_score`  : column mean with pandas' skipna (NaN folds ignored, all-NaN → NaN).
-  * ranking           : `Series.rank(ascending=~scoring.greater_is_better)` (method "average",
+  * ranking           : `Series.rank(ascending=not scoring.greater_is_better)` (method "average",
                         NaN keeps NaN) — the direction is the ONE definition `rankAscending`.
   * selection         : `Series.argmin()` (first minimal rank, NaN skipped, all-NaN → −1 → KeyError),
                         `best_index_`, `best_score_`, `best_params_`.
@@ -19,9 +19,9 @@ What is modelled (the code's algorithm, as it is):
                         the whole `(y, X, fh)` iff `refit`; `_is_fitted = True` only at the very end.
   * delegation        : `check_is_fitted(method_name)` (consults `refit`, then the best forecaster),
                         `predict/update/update_predict/update_predict_single/...` delegate to
-                        `best_forecaster_`; `update` returns `self`; `cutoff` uses the plain
-                        `check_is_fitted()` — the ONE definition `cutoffChecksRefit`; `update_params`
-                        defaults to `False` in the tuner — the ONE definition `tunerDefaultUpdateParams`.
+                        `best_forecaster_`; `update` returns `self`; `cutoff` is guarded by
+                        `check_is_fitted("cutoff")` — the ONE definition `cutoffChecksRefit`; `update_params`
+                        defaults to `True` in the tuner — the ONE definition `tunerDefaultUpdateParams`.
 The base forecaster is an abstract machine (`Machine`): any state type, any operations.
 -/
 import SkVerif.Model.Split
@@ -103,15 +103,10 @@ def colMean (xs : List Score) : Score :=
   let fin := finite xs
   if fin.isEmpty then none else some (ratSum fin / (fin.length : Rat))
 
-/-- Python's `~` on a bool (an int): `~True = -2`, `~False = -1` -/
-def pyInvert (b : Bool) : Int := if b then -2 else -1
-/-- truth value of an int where a bool is expected -/
-def truthy (i : Int) : Bool := i != 0
-
-/-- THE ranking direction: `rank(ascending=~scoring.greater_is_better)` as coded.  Both `-2` and `-1`
-are truthy, so this is `true` for either direction (known finding C08 rank-direction).  The repaired
-code (`ascending=not scoring.greater_is_better`) is `!gib`. -/
-def rankAscending (gib : Bool) : Bool := truthy (pyInvert gib)
+/-- THE ranking direction: `rank(ascending=not scoring.greater_is_better)`.
+(Before fix 3fa437d the code read `~scoring.greater_is_better`; `~True = -2` and `~False = -1` are both
+truthy, so the ranking was ascending for either direction.) -/
+def rankAscending (gib : Bool) : Bool := !gib
 
 /-- number of finite entries satisfying `p` -/
 def countFin (p : Rat → Bool) (xs : List Score) : Nat :=
@@ -210,14 +205,13 @@ structure Machine (S Op V A : Type) where
   fitted : S → Bool
   step : S → Op → S × Except Err V
 
-/-- THE guard of the `cutoff` property: as coded it calls `check_is_fitted()` without a method name,
-so `refit` is not consulted (known finding C08 cutoff-norefit).  Repaired code: `true`. -/
-def cutoffChecksRefit : Bool := false
+/-- THE guard of the `cutoff` property: `check_is_fitted("cutoff")`, so `refit` is consulted
+(before fix 2c34b70 it called `check_is_fitted()` without a method name: `false`). -/
+def cutoffChecksRefit : Bool := true
 
 /-- THE default of `update_params` in the tuner's `update`, `update_predict`, `update_predict_single`:
-as coded `False`, while every forecaster's own default is `True` (known finding C08
-default-update_params).  Repaired code: `true`. -/
-def tunerDefaultUpdateParams : Bool := false
+`True`, like every forecaster's (before fix 2b9e886: `False`). -/
+def tunerDefaultUpdateParams : Bool := true
 /-- the default of `update_params` in `BaseForecaster.update/update_predict/update_predict_single` -/
 def forecasterDefaultUpdateParams : Bool := true
 
@@ -238,6 +232,19 @@ def Call.update {Op} (mk : Bool → Op) (up : Option Bool) : Call Op :=
 /-- `update_predict(…, update_params=up)` / `update_predict_single(…, update_params=up)` -/
 def Call.updatePredict {Op} (mk : Bool → Op) (up : Option Bool) : Call Op :=
   ⟨mk (up.getD tunerDefaultUpdateParams), mk (up.getD forecasterDefaultUpdateParams), true, false⟩
+
+/-- every call the tuner class offers, as written by the user (`up = none`: `update_params` left to its default) -/
+inductive UCall (Op : Type) where
+  | method (o : Op)                                   -- predict, compute_pred_int, transform, inverse_transform, …
+  | cutoff (o : Op)
+  | update (mk : Bool → Op) (up : Option Bool)
+  | updatePredict (mk : Bool → Op) (up : Option Bool) -- update_predict, update_predict_single
+
+def UCall.toCall {Op} : UCall Op → Call Op
+  | .method o => Call.method o
+  | .cutoff o => Call.cutoff o
+  | .update mk up => Call.update mk up
+  | .updatePredict mk up => Call.updatePredict mk up
 
 inductive TVal (V : Type) | self | val (v : V)
   deriving DecidableEq, Repr
